@@ -1,9 +1,12 @@
 #!/bin/bash
-# usage: try_patch.sh <patch.diff> <property> [tier]   -- applies the patch to /repo, runs the check, always reverts.
+# usage: try_patch.sh <patch.diff> <property> [tier]
+# Applies the patch to a scratch worktree of /repo's HEAD (never to /repo itself), runs the check against
+# that tree (VERIF_REPO), removes the worktree. Evidence and replays of the unchanged tree are not touched.
 set -u
 patch="$(realpath "$1")"; prop="$2"; tier="${3:-quick}"
-if [ -n "$(git -C /repo status --porcelain)" ]; then echo "REPO DIRTY, refusing"; exit 3; fi
-trap 'git -C /repo reset -q --hard HEAD; git -C /repo clean -fdq -- src' EXIT
-git -C /repo apply "$patch" 2>/dev/null || git -C /repo apply --3way "$patch" || { echo "APPLY FAILED"; exit 3; }
-cd /verif && VERIF_NOEVIDENCE=1 VERIF_REPLAY_DIR=/tmp/verif-mutant-replays ./check "$prop" --tier "$tier" 2>&1 | tail -${TAIL:-6}
+wt=$(mktemp -d /tmp/wt-try-XXXX)
+git -C /repo worktree add -q --detach "$wt" HEAD || exit 3
+trap 'git -C /repo worktree remove --force "$wt" 2>/dev/null; rm -rf "$wt"' EXIT
+git -C "$wt" apply "$patch" 2>/dev/null || git -C "$wt" apply --3way "$patch" || { echo "APPLY FAILED"; exit 3; }
+cd /verif && VERIF_REPO="$wt" VERIF_NOEVIDENCE=1 VERIF_REPLAY_DIR=/tmp/verif-mutant-replays ./check "$prop" --tier "$tier" 2>&1 | tail -${TAIL:-6}
 echo "rc=${PIPESTATUS[0]}"
